@@ -51,6 +51,12 @@ def run(tier):
             links = [mklink(kind, pos, lay) for pos, (kind, lay) in enumerate(zip(seq, lays))]
             cases.append('s 0 ' + ' '.join(spec(p, m) for p, m in links))
             meta.append((seq, list(lays)))
+    # a non-zero starting granule position with ordinary 4 KiB pages (the first audio page lies beyond the open-time read-ahead), in every position
+    for seq in (['H'], ['H', 'A'], ['A', 'H'], ['H', 'H'], ['B', 'H', 'A'], ['H', 'Z', 'H']):
+        links = [zoo.link('A', 1000 + pos * 37, '3') if kind == 'A' else zoo.link('B', 1000 + pos * 37, 'natural') if kind == 'B' else zoo.link('Z', 1000 + pos * 37, 'flush') if kind == 'Z'
+                 else zoo.link('K', 1000 + pos * 37, 'natural', n=9000, goff=100000 + pos, q=0.6, ch=2) for pos, kind in enumerate(seq)]
+        cases.append('s 0 ' + ' '.join(spec(p, m) for p, m in links))
+        meta.append((seq, ['goff-bigpages'] * len(seq)))
     # serial numbers >= 2^31 in every position of short chains
     for seq in itertools.product(['A', 'B', 'D', 'Z'], repeat=3):
         links = [mklink(kind, pos, 'natural' if kind != 'A' else '3', hiserial=True) for pos, kind in enumerate(seq)]
